@@ -171,8 +171,25 @@ def rule_d(repo, chk):
     chk.ob('C17.d', ok, nm, 'the three flags are passed through unchanged')
 
 
+def rule_e(repo, chk):
+    chk.clause('C17.e', 'the reported NAME is the text at the reported position: every tree-backed name class takes string_name from the very '
+                        'token whose start_pos it reports (AbstractTreeName.string_name returns self.tree_name.value unmodified - no case '
+                        'folding, no unicode normalisation: NFKC would make `ﬁle` at (1, 0) answer "file")')
+    base = repo.cls(NAMES, 'AbstractTreeName')
+    n = 0
+    for ci in [base] + repo.subclasses(base):
+        sn = ci.methods.get('string_name')
+        if sn is None:
+            continue
+        n += 1
+        body = effective_body(sn)
+        ok = len(body) == 1 and isinstance(body[0], ast.Return) and norm(body[0].value) in ('self.tree_name.value', 'self._string_name')
+        chk.ob('C17.e', ok, sn, '%s.string_name hands out the token text unmodified' % ci.qual, '; '.join(norm(x) for x in body), key='string_name|%s' % ci.key)
+    chk.floor('C17.e', n, 1, '(string_name definitions of tree-backed name classes)')
+
+
 def describe(chk):
     chk.undecided('that parso\'s token positions match the text in every layout (dependency); which definitions the engine reports')
 
 
-RULES = [('C17.a', rule_a), ('C17.b', rule_b), ('C17.c', rule_c), ('C17.d', rule_d)]
+RULES = [('C17.a', rule_a), ('C17.b', rule_b), ('C17.c', rule_c), ('C17.d', rule_d), ('C17.e', rule_e)]
